@@ -347,7 +347,10 @@ class BaseEngine(abc.ABC):
                 program.space_unroll(shots=shots or 1)
         else:
             # if `space_unroll != True`, only unroll it iff it isn't already unrolled
-            if not program.is_unrolled:
+            # (an unrolled circuit is only reused for the number of shots it was unrolled for)
+            if not program.is_unrolled or (
+                program.unrolled_circuit is not None and program._unrolled_shots != (shots or 1)
+            ):
                 program.unroll(shots=shots or 1)
 
         if program.space_unrolled_circuit is not None:
